@@ -16,7 +16,7 @@ Not decided: that two structurally identical float computations round identicall
 establishes; uniform-model views; numeric equality of different float paths.
 """
 from fractions import Fraction
-from vlib import sym, rules, effects
+from vlib import sym, rules, effects, anchors
 
 LQD = 'stream::model::quantize::LeakilyQuantizedDistribution'
 MODEL_TRAITS = ('stream::model::EntropyModel', 'stream::model::EncoderModel', 'stream::model::DecoderModel', 'stream::model::IterableEntropyModel')
@@ -322,7 +322,8 @@ def ctor_shape(F, b):
 
 
 def check_lazy_eager(ctx, F):
-    eager = [b for b in F.bodies if b.promoted is None and b.name == 'fast_quantized_cdf' and b.dk == 'Fn']
+    ff = anchors.validators(F).get('float_fast')
+    eager = [ff] if ff is not None else []
     lazy = [b for b in F.bodies if b.promoted is None and b.name == 'from_floating_point_probabilities_fast'
             and b.self_adt == 'stream::model::categorical::lazy_contiguous::LazyContiguousCategoricalEntropyModel']
     key = 'R4/lazy-equals-eager/scale'
